@@ -18,7 +18,8 @@ N_HIST = {'quick': 2000, 'thorough': 160000}
 PERM_N = {'quick': 5, 'thorough': 6}
 RULE = ('cases: (a) seeded random histories of 30-200 ops (add 45%/remove 25%/step 20%/duplicate-add 5%/unknown-remove 5%) '
         'over 6-10 system ids with priorities from {-3..3, +-10^12} forced to repeat, systems re-registered after removal '
-        '(priority sometimes changed while unregistered), real Collector subclasses (default priority -1) mixed in; '
+        '(priority sometimes changed while unregistered), real Collector subclasses (default priority -1) mixed in, registrations / removals / '
+        're-registrations also issued from inside a timestep by a system, and usually two models alive at once that share the system ids; '
         '(b) for each priority multiset over n<=N systems every distinct registration order (exhaustive). '
         'A case is non-trivial when an executed timestep contained >=1 pair of equal-priority neighbours AND (for '
         'histories) >=1 system was re-registered; distinct = distinct (priority sequence in registration order, op-kind '
@@ -27,7 +28,7 @@ ASSUMPTIONS = ['priorities are fixed while a system is registered (as the proper
                'systems do not override __eq__ (identity equality)',
                'the System/Collector subclasses used for logging only append to a list in execute()/collect()']
 FLOORS = {'quick': {'tie_pairs': 500, 'rejected_add': 50, 'rejected_remove': 50, 'steps_compared': 2000,
-                    'reregistrations': 200, 'contract:SystemManager.queue': 1000, 'reach:Core.SystemManager.add_system': 1000,
+                    'reregistrations': 200, 'in_cycle_change_steps': 1000, 'two_model_histories': 500, 'contract:SystemManager.queue': 1000, 'reach:Core.SystemManager.add_system': 1000,
                     'reach:Core.SystemManager.execute_systems': 1000},
           'thorough': {'tie_pairs': 50000, 'rejected_add': 5000, 'rejected_remove': 5000, 'steps_compared': 100000,
                        'contract:SystemManager.queue': 100000}}
@@ -62,14 +63,33 @@ def _fixtures():
         def collect(self):
             self.log.append(self.id)
 
-    return core, LogSystem, LogCollector
+    class Mutator(core.System):
+        """Applies queued registrations / removals from INSIDE a timestep (a system changing the system set)."""
+
+        def __init__(self, model, driver):
+            super().__init__('__mutator__', model, priority=10 ** 15)
+            self.driver = driver
+
+        def execute(self):
+            d = self.driver
+            pending, d.pending = d.pending, []
+            for kind, obj in pending:
+                if kind in ('remove', 'readd') and d.registered(obj.id) is not None:
+                    self.model.systems.remove_system(obj.id)
+                    d.ref.remove(d.registered(obj.id))
+                if kind in ('add', 'readd') and d.registered(obj.id) is None:
+                    self.model.systems.add_system(obj)
+                    d.ref.append({'id': obj.id, 'obj': obj, 'prio': obj.priority, 'seq': d.seq})
+                    d.seq += 1
+
+    return core, LogSystem, LogCollector, Mutator
 
 
 class Driver:
     def __init__(self, ctx):
         from vlib import contracts
         self.ctx = ctx
-        self.core, self.LogSystem, self.LogCollector = _fixtures()
+        self.core, self.LogSystem, self.LogCollector, Mutator = _fixtures()
         contracts.attach_system_manager(self.core)
         self.contracts = contracts
         self.model = self.core.Model()
@@ -77,6 +97,8 @@ class Driver:
         self.ref = []       # registered: dicts {id, obj, prio, seq}
         self.seq = 0
         self.trace = []
+        self.pending = []
+        self.model.systems.add_system(Mutator(self.model, self))     # always first, never logged
 
     def expected_order(self):
         return [r['id'] for r in sorted(self.ref, key=lambda r: (-r['prio'], r['seq']))]
@@ -141,6 +163,18 @@ class Driver:
         self.trace.append('S')
         return ties
 
+    def step_mutating(self):
+        """A timestep during which the mutator system applies the queued changes.  Which of the affected systems run in this very
+        step is C05's subject; here only 'nobody twice' is checked and the FOLLOWING steps must show the new order."""
+        del self.log[:]
+        self.model.systems.execute_systems()
+        dup = [i for i in set(self.log) if self.log.count(i) > 1]
+        if dup:
+            raise CaseViolation(f'system(s) {dup} ran twice in a timestep during which the system set was changed', log=list(self.log))
+        self.ctx.count('in_cycle_change_steps')
+        self.trace.append('M')
+        self.lookups()
+
     def probe(self):
         """After a rejected op nothing may have changed: registry lookups and the very next step must be as before."""
         self.lookups()
@@ -149,23 +183,29 @@ class Driver:
 
 def case_history(ctx, case):
     rng = ctx.rng('hist', case['i'])
-    d = Driver(ctx)
+    drivers = [Driver(ctx) for _ in range(2 if rng.random() < 0.6 else 1)]      # two models alive at once share the system ids
+    if len(drivers) == 2:
+        ctx.count('two_model_histories')
     k = rng.randint(6, 10)
     pool = rng.sample(PRIOS, rng.randint(2, 4))        # few levels -> forced repeats
     names = [f's{j}' for j in range(k)]
-    objs = {}
-    for n in names:
-        if rng.random() < 0.25:
-            objs[n] = d.LogCollector(n, d.model, d.log, priority=None if rng.random() < 0.6 else rng.choice(pool))
-        else:
-            objs[n] = d.LogSystem(n, d.model, d.log, priority=rng.choice(pool))
-    ever_removed, rereg, ties = set(), 0, 0
+    for d in drivers:
+        d.objs = {}
+        for n in names:
+            if rng.random() < 0.25:
+                d.objs[n] = d.LogCollector(n, d.model, d.log, priority=None if rng.random() < 0.6 else rng.choice(pool))
+            else:
+                d.objs[n] = d.LogSystem(n, d.model, d.log, priority=rng.choice(pool))
+        d.ever_removed = set()
+    rereg, ties = 0, 0
     nops = rng.randint(30, 200) if ctx.tier == 'thorough' else rng.randint(30, 90)
     for _ in range(nops):
+        d = rng.choice(drivers)
+        objs, ever_removed = d.objs, d.ever_removed
         x = rng.random()
         reg = [r['id'] for r in d.ref]
         unreg = [n for n in names if n not in reg]
-        if x < 0.45 and unreg:
+        if x < 0.40 and unreg:
             n = rng.choice(unreg)
             o = objs[n]
             if n in ever_removed:
@@ -176,10 +216,21 @@ def case_history(ctx, case):
                 rereg += 1
                 ctx.count('reregistrations')
             d.add(o)
-        elif x < 0.70 and reg:
+        elif x < 0.62 and reg:
             n = rng.choice(reg)
             d.remove(n, via_cleanup=rng.random() < 0.3)
             ever_removed.add(n)
+        elif x < 0.70:
+            # changes issued from inside a timestep by a system; the following steps must show the resulting order
+            for _k in range(rng.randint(1, 3)):
+                n = rng.choice(names)
+                kind = rng.choice(['readd', 'readd', 'remove', 'add'])
+                d.pending.append((kind, objs[n]))
+                if kind != 'add':
+                    ever_removed.add(n)
+            d.step_mutating()
+            ties += d.step()
+            rereg += 1
         elif x < 0.90:
             ties += d.step()
         elif x < 0.95 and reg:
@@ -191,11 +242,13 @@ def case_history(ctx, case):
                 ctx.count('impostor_add')
         else:
             d.remove(rng.choice(unreg) if unreg and rng.random() < 0.7 else 'nobody')
-    ties += d.step()
+    for d in drivers:
+        ties += d.step()
+    d = drivers[0]
     if ties and rereg:
-        ctx.distinct(('hist', tuple(r['prio'] for r in d.ref), ''.join(d.trace)))
+        ctx.distinct(('hist', tuple(r['prio'] for r in d.ref), ''.join(d.trace), len(drivers)))
     if case['i'] < 3:
-        ctx.sample({'kind': 'history', 'i': case['i'], 'ops': ''.join(d.trace)[:120],
+        ctx.sample({'kind': 'history', 'i': case['i'], 'models': len(drivers), 'ops_model0': ''.join(d.trace)[:120],
                     'final_registered': [(r['id'], r['prio'], r['seq']) for r in d.ref],
                     'final_order': d.expected_order()})
 
